@@ -192,7 +192,7 @@ def c05d(F, R):
 
 @rule("C05", "C05.e.operand-search-cuts", floor=4)
 def c05e(F, R):
-    """the breadth-first searches that pick the reported operand (first store / first usage) cut a path only at an already visited node or at the node they were looking for"""
+    """the breadth-first searches that pick the reported operand (first store / first usage) cut a path only at an already visited node, at the node they were looking for, or - the forward search, after its use test - at a redefinition of the register"""
     from .g2 import real_breaks
     for suffix, found_call in (("::Cfg::error_ranges_for_first_usage", "gen_reg"), ("::Cfg::error_ranges_for_first_store", "writes_to")):
         c = [q for q in F.fns if q.endswith(suffix)]
@@ -245,6 +245,10 @@ def c05e(F, R):
             elif found_call in calls:
                 seen_found = True
                 R.ok(f"{name}|cut|found", detail=f"path cut where `{found_call}` identifies the searched node")
+            elif seen_found and "kill_reg" in calls and "contains" in calls and found_call == "gen_reg" and not (calls - {"kill_reg", "contains"}):
+                # forward search for a use: once the use test has been passed, a node that redefines the register ends the path
+                # (what lies behind it reads the new value); a read-modify-write instruction was already caught by the use test
+                R.ok(f"{name}|cut|redefined", detail="path cut at a redefinition, after the use test")
             else:
                 R.bad(f"{name}|cut|{'+'.join(sorted(calls)) or 'other'}", f"{name}: the search is cut under `{ekey(cond)[:80]}`, which is neither 'already visited' nor 'found': a use/store behind such a node is never reported"
                       + (" (a read-modify-write instruction both uses and redefines the register; the use comes first)" if "kill_reg" in calls or "writes_to" in calls else ""), loc(s))
